@@ -19,7 +19,7 @@ func init() {
 	})
 	register(&Property{
 		ID:       "C14",
-		Patterns: []string{"./font/encoding/simpleenc", "./font/cmap"},
+		Patterns: []string{"./font/encoding/simpleenc", "./font/cmap", "./font/encoding", "./graphics/extract"},
 		Run:      runC14,
 		Explanation: "Narrow static rules on glyph-code allocation and ToUnicode compression: (R3) in simpleenc.Encode a code is chosen only among codes that are not in use — every assignment of the chosen code inside the search loop is dominated by the miss edge of the in-use lookup of that code — the (glyph, text) pair is rejected if it already has a code, the table-full exit precedes the search, and the chosen code is what both tables record; so distinct (glyph, text) pairs can never share a code; " +
 			"(R7) ToUnicode range compression compares every adjacent pair in full (shared with C13). Decides these structural conditions for all strings and orders of use; everything value-level (widths, ToUnicode contents, the 18 font kinds end to end, sibling Codes implementations) is NOT decided.",
@@ -38,6 +38,8 @@ func runC13(c *core.Ctx) {
 func runC14(c *core.Ctx) {
 	ruleSimpleEncode(c)
 	ruleRunCompression(c, "C14-R7")
+	ruleSimpleWidthsWindow(c)
+	ruleDifferencesArray(c)
 }
 
 const cmapPkg = "pdf/font/cmap"
@@ -409,4 +411,248 @@ func ruleIncrementBase(c *core.Ctx) {
 		}
 		o.Require(n >= 3, "expected the three readers (Lookup, All, reverse lookup) to call nextString, found %d calls", n)
 	})
+}
+
+// identUse returns some identifier node of fn that refers to obj.
+func identUse(fn *core.Func, obj types.Object) *ast.Ident {
+	var out *ast.Ident
+	ast.Inspect(fn.Decl, func(n ast.Node) bool {
+		if id, ok := n.(*ast.Ident); ok && out == nil && fn.Info().ObjectOf(id) == obj {
+			out = id
+		}
+		return out == nil
+	})
+	return out
+}
+
+func intLit(n int64) ast.Expr {
+	if n < 0 {
+		return &ast.UnaryExpr{Op: token.SUB, X: &ast.BasicLit{Kind: token.INT, Value: itoa(int(-n))}}
+	}
+	return &ast.BasicLit{Kind: token.INT, Value: itoa(int(n))}
+}
+
+// ruleSimpleWidthsWindow (C14-R8): the reader accepts every /Widths array
+// that lies inside the code range: FirstChar in 0..255, 1..256 entries and
+// FirstChar+len <= 256 (an array that ends exactly at code 255 is the normal
+// case for fonts that use code 255).  The conditions under which
+// getSimpleWidths reaches its copy loop must hold for all such inputs, and
+// the store into the 256-entry table must stay inside it.
+func ruleSimpleWidthsWindow(c *core.Ctx) {
+	const pk = "pdf/graphics/extract"
+	c.Check("C14-R8", pk+".getSimpleWidths/window", "every /Widths array inside the code range 0..255 is read (none is rejected as a whole)", func(o *core.Ob) {
+		fn := c.Prog.Func(pk, "getSimpleWidths")
+		g := fn.Graph()
+		info := fn.Info()
+		// FirstChar and Widths variables: the results of the cursor reads of those keys
+		var firstChar, widths types.Object
+		ast.Inspect(fn.Decl.Body, func(n ast.Node) bool {
+			as, ok := n.(*ast.AssignStmt)
+			if !ok || len(as.Rhs) != 1 {
+				return true
+			}
+			for key, dst := range map[string]*types.Object{"FirstChar": &firstChar, "Widths": &widths} {
+				found := false
+				ast.Inspect(as.Rhs[0], func(m ast.Node) bool {
+					if ix, ok := m.(*ast.IndexExpr); ok {
+						if s, ok := core.StringConst(info, ix.Index); ok && s == key {
+							found = true
+						}
+					}
+					return true
+				})
+				if found {
+					*dst = core.ObjOf(info, as.Lhs[0])
+				}
+			}
+			return true
+		})
+		if firstChar == nil || widths == nil {
+			core.Undecided("the variables holding /FirstChar and /Widths were not found")
+		}
+		// the copy loop
+		var loop *core.V
+		for _, h := range loopHeads(g) {
+			if h.Cond.Range != nil && core.ObjOf(info, h.Cond.Range.X) == widths {
+				loop = h
+			}
+		}
+		if loop == nil {
+			core.Undecided("the loop over the /Widths array was not found")
+		}
+		o.At(fn.Site(loop.Cond.Range, "copy loop"))
+		fc := identUse(fn, firstChar)
+		wd := identUse(fn, widths)
+		ln := &ast.CallExpr{Fun: &ast.Ident{Name: "len"}, Args: []ast.Expr{wd}}
+		legal := core.Formula{Fn: fn, Atoms: []core.Atom{
+			{Expr: &ast.BinaryExpr{X: wd, Op: token.NEQ, Y: &ast.Ident{Name: "nil"}}},
+			{Expr: &ast.BinaryExpr{X: fc, Op: token.GEQ, Y: intLit(0)}},
+			{Expr: &ast.BinaryExpr{X: fc, Op: token.LEQ, Y: intLit(255)}},
+			{Expr: &ast.BinaryExpr{X: ln, Op: token.GEQ, Y: intLit(1)}},
+			{Expr: &ast.BinaryExpr{X: &ast.BinaryExpr{X: fc, Op: token.ADD, Y: ln}, Op: token.LEQ, Y: intLit(256)}},
+		}}
+		var atoms []core.Atom
+		for _, a := range g.DominatingAtoms(loop) {
+			if core.Mentions(info, a.Expr, firstChar) || core.Mentions(info, a.Expr, widths) {
+				atoms = append(atoms, a)
+			}
+		}
+		o.Count(len(atoms) + 1)
+		holds, counter, decided := c.Prog.Implies(legal, core.Formula{Fn: fn, Atoms: atoms})
+		if !decided {
+			core.Undecided("acceptance condition not decided: %s", counter)
+		}
+		if !holds {
+			o.Fail("%s: a /Widths array inside the code range is rejected: %s (conditions for reading it: %s)", c.Prog.Pos(loop.Cond.Range.Pos()), counter, c.Prog.FormulaString(core.Formula{Atoms: atoms}))
+		}
+	})
+}
+
+// ruleDifferencesArray (C14-R9): a /Differences array is a sequence of runs
+// "code name name ...": a name without a preceding code has no meaning and is
+// dropped by readers.  The writer loops over the 256 codes and remembers in a
+// state variable where the previous run ended; the integer must be written
+// (a) for the first entry whatever its code is, and (b) for every entry whose
+// code does not continue the previous run, and only for those.  Decided by
+// tabulating the writer's own guard and state update for all 256 codes.
+func ruleDifferencesArray(c *core.Ctx) {
+	const pk = "pdf/font/encoding"
+	fn := c.Prog.Func(pk, "Simple.AsPDFSimple")
+	g := fn.Graph()
+	info := fn.Info()
+	// loops "for code := range 256" that append a pdf.Name
+	n := 0
+	for _, h := range loopHeads(g) {
+		h := h
+		rs := h.Cond.Range
+		if rs == nil || rs.Key == nil {
+			continue
+		}
+		if k, ok := core.IntConst(info, rs.X); !ok || k != 256 {
+			continue
+		}
+		code := core.ObjOf(info, rs.Key)
+		// appends inside the loop
+		var intApp, nameApp *core.V
+		for _, v := range g.Vs {
+			as, ok := v.AST.(*ast.AssignStmt)
+			if !ok || len(as.Rhs) != 1 || as.Pos() < rs.Body.Pos() || as.End() > rs.Body.End() {
+				continue
+			}
+			call, ok := ast.Unparen(as.Rhs[0]).(*ast.CallExpr)
+			if !ok || len(call.Args) != 2 {
+				continue
+			}
+			if id, ok := call.Fun.(*ast.Ident); !ok || id.Name != "append" {
+				continue
+			}
+			t := info.TypeOf(call.Args[1])
+			switch {
+			case core.IsNamed(t, "pdf", "Integer"):
+				intApp = v
+			case core.IsNamed(t, "pdf", "Name"):
+				nameApp = v
+			}
+		}
+		if intApp == nil || nameApp == nil {
+			continue
+		}
+		n++
+		c.Check("C14-R9", fn.Key+"/differences#"+itoa(n), "the code is written before the first name and whenever the run of consecutive codes is interrupted", func(o *core.Ob) {
+			o.At(fn.Site(intApp.AST, "code written"))
+			o.At(fn.Site(nameApp.AST, "name written"))
+			// the guard of the integer append: the innermost condition whose true edge dominates it and mentions code
+			var guard *core.V
+			for _, bv := range g.BranchVertices() {
+				if bv.Cond.Expr != nil && bv.AST != nil && bv.Cond.Expr.Pos() >= rs.Body.Pos() && bv.Cond.Expr.End() <= rs.Body.End() &&
+					g.EdgeDominates(intApp, core.EdgeRef{From: bv, Label: core.EdgeTrue}) && !g.EdgeDominates(nameApp, core.EdgeRef{From: bv, Label: core.EdgeTrue}) {
+					guard = bv
+				}
+			}
+			if guard == nil {
+				core.Undecided("guard of the integer append not found")
+			}
+			// the state variable: mentioned in the guard, assigned in the loop, not the loop variable
+			var state types.Object
+			ast.Inspect(guard.Cond.Expr, func(m ast.Node) bool {
+				if id, ok := m.(*ast.Ident); ok {
+					if obj, ok := info.ObjectOf(id).(*types.Var); ok && obj != code && !obj.IsField() {
+						state = obj
+					}
+				}
+				return true
+			})
+			if state == nil {
+				core.Undecided("state variable of the run detection not found in %s", c.Prog.Src(guard.Cond.Expr))
+			}
+			var init, upd ast.Expr
+			for _, d := range core.AssignsTo(info, fn.Decl, state) {
+				as, ok := d.(*ast.AssignStmt)
+				if !ok || len(as.Lhs) != 1 || len(as.Rhs) != 1 {
+					core.Undecided("assignment to %s not understood", state.Name())
+				}
+				if as.Pos() >= rs.Body.Pos() && as.End() <= rs.Body.End() {
+					upd = as.Rhs[0]
+					// the update happens together with the name
+					uv := g.VertexOf(as)
+					o.Require(uv != nil && (g.Dominates(nameApp, uv) || g.Dominates(uv, nameApp)), "the run state is updated on a different path than the name is written")
+				} else if as.End() <= rs.Pos() {
+					init = as.Rhs[0] // the last one before the loop wins (source order)
+				}
+			}
+			if init == nil || upd == nil {
+				core.Undecided("initial value or update of %s not found", state.Name())
+			}
+			s0, ok := core.IntConst(info, init)
+			if !ok {
+				core.Undecided("initial value of %s is not a constant", state.Name())
+			}
+			var codes []int64
+			for i := int64(0); i < 256; i++ {
+				codes = append(codes, i)
+			}
+			// (a) first entry
+			cnt := 0
+			dec, why := c.Prog.Tabulate(fn, guard.Cond.Expr, nil, map[string][]int64{code.Name(): codes, state.Name(): {s0}}, func(env map[string]int64, _ int64, b bool) {
+				cnt++
+				if !b {
+					cv, _ := core.EnvGet(env, code.Name())
+					if cnt >= 0 {
+						o.Fail("%s: when the first entry of the array has code %d, no code is written before the name (%s with %s = %d is false)", c.Prog.Pos(guard.Cond.Expr.Pos()), cv, c.Prog.Src(guard.Cond.Expr), state.Name(), s0)
+						cnt = -1000
+					}
+				}
+			})
+			if !dec {
+				core.Undecided("guard not tabulated: %s", why)
+			}
+			// (b) continuation
+			bad := 0
+			for _, prev := range codes {
+				var s1 int64
+				dec, why := c.Prog.Tabulate(fn, upd, nil, map[string][]int64{code.Name(): {prev}, state.Name(): {s0}}, func(_ map[string]int64, v int64, _ bool) { s1 = v })
+				if !dec {
+					core.Undecided("state update not tabulated: %s", why)
+				}
+				dec, why = c.Prog.Tabulate(fn, guard.Cond.Expr, nil, map[string][]int64{code.Name(): codes, state.Name(): {s1}}, func(env map[string]int64, _ int64, b bool) {
+					cv, _ := core.EnvGet(env, code.Name())
+					if cv <= prev {
+						return
+					}
+					want := cv != prev+1
+					if b != want {
+						bad++
+						if bad <= 2 {
+							o.Fail("%s: after an entry for code %d, an entry for code %d is written %s its code", c.Prog.Pos(guard.Cond.Expr.Pos()), prev, cv, map[bool]string{true: "with", false: "without"}[b])
+						}
+					}
+				})
+				if !dec {
+					core.Undecided("guard not tabulated: %s", why)
+				}
+			}
+			o.Count(256 + 256*255/2)
+		})
+	}
+	c.Floor("C14-R9", 2)
 }
